@@ -20,6 +20,9 @@ partial def loop {σ} (h : IO.FS.Stream) (init : σ) (step : σ → List String 
   | ["case"] => do
     IO.println "case"
     loop h init step init
+  | ["reset"] => do
+    IO.println "reset"
+    loop h init step init
   | _ => do
     let (s', out) := step s ws
     for o in out do IO.println o
